@@ -267,6 +267,7 @@ def run(F):
                     r.fail("file|%s|unlisted" % rel, rel, "parameter file %s has no row in tables/r15_files.toml (which type reads it?)" % rel)
     data = {}
     n_records = 0
+    molarweights = {}
     hint_of = lambda p: p.split("/")[1]
     for e in tab["file"]:
         p = os.path.join(repo, e["path"])
@@ -320,6 +321,12 @@ def run(F):
                             errs.append("[%d].model_record.fh = %r is not 0, 1 or 2" % (i, mr["fh"]))
                     if "molarweight" in rec and isinstance(rec["molarweight"], (int, float)) and not rec["molarweight"] > 0:
                         errs.append("[%d].molarweight = %r is not positive" % (i, rec["molarweight"]))
+                    elif rec_ty.startswith("PureRecord<") and isinstance(rec.get("molarweight"), (int, float)) and not (1.0 <= rec["molarweight"] <= 5000.0):
+                        errs.append("[%d].molarweight = %r g/mol is outside the physical range [1, 5000] (unit slip: kg/mol?)" % (i, rec["molarweight"]))
+                    if rec_ty.startswith("PureRecord<") and isinstance(rec.get("molarweight"), (int, float)):
+                        nm_ = ident_name(rec)
+                        if nm_:
+                            molarweights.setdefault(str(nm_).lower(), []).append((rec["molarweight"], rel))
                     if "molarweight" not in rec and rec_ty.startswith(("PureRecord<PcSaft", "PureRecord<SaftVR", "PureRecord<Electrolyte", "SegmentRecord<")):
                         errs.append("[%d]: molarweight is missing (defaults to 0 for a residual-model record)" % i)
             if errs:
@@ -334,6 +341,20 @@ def run(F):
             bad += 1
             r.fail("duplicate|%s|%s=%s" % (rel, kind, val), rel, "%s: identifier %s = %r occurs more than once (lookup by %s becomes ambiguous)" % (rel, kind, val, kind))
         r.inst("file|%s" % rel, rel, "ok" if bad == 0 else "violation", records=len(js), type=ty)
+    # one substance, one molar weight: a name that occurs in several shipped files carries the same molar weight (2 %)
+    n_shared = 0
+    for nm_, lst in sorted(molarweights.items()):
+        ws = [w for w, _ in lst if w > 0]
+        if len(ws) < 2:
+            continue
+        n_shared += 1
+        if max(ws) / min(ws) > 1.02:
+            lo = min(lst)
+            hi = max(lst)
+            r.fail("molarweight|%s|%s" % (nm_, lo[1] if lst.count(lo) == 1 else hi[1]), lo[1],
+                   "substance `%s` has molar weight %r in %s but %r in %s: the same substance must have the same molar weight in every shipped file "
+                   "(SAFT-VRQ Mie uses it as the particle mass of the quantum correction)" % (nm_, lo[0], lo[1], hi[0], hi[1]))
+    r.inst("molarweight|cross-file", "-", "ok", names_in_several_files=n_shared, nontrivial=n_shared > 0)
     # cross references
     for e in tab["file"]:
         rel = e["path"]
